@@ -218,7 +218,24 @@ fn gen_game_lines(rng: &mut Rng, clocked: bool, out: &mut Vec<String>, forced: &
         }
     };
     let plies = rng.usize_below(7);
-    let (ms, ps) = gen::playout(rng, &start, plies, 1);
+    let (ms, ps) = if rng.chance(1, 4) {
+        // a history with planted repetitions: repetition draws then occur inside the tree
+        let ms = crate::c09::gen_history(rng, &start);
+        let ms: Vec<RMove> = ms.into_iter().take(40).collect();
+        let mut ps = vec![start.clone()];
+        for m in &ms {
+            let q = ps.last().unwrap().make(m);
+            ps.push(q);
+        }
+        // never end on a position without legal moves
+        let mut k = ms.len();
+        while k > 0 && ps[k].legal_moves().is_empty() {
+            k -= 1;
+        }
+        (ms[..k].to_vec(), ps[..=k].to_vec())
+    } else {
+        gen::playout(rng, &start, plies, 1)
+    };
     let n_go = rng.range(1, 3);
     for g in 0..n_go {
         let k = if ms.is_empty() { 0 } else { rng.usize_below(ms.len() + 1) };
@@ -260,6 +277,12 @@ pub fn generate(seed: u64, big: bool) -> Scenario {
         }
         if rng.chance(1, 4) {
             prefix.push("isready".into());
+        }
+        // commands every GUI sends and this engine does not implement: whatever they leave
+        // behind must be gone after ucinewgame
+        for _ in 0..rng.below(3) {
+            let at = rng.usize_below(prefix.len() + 1);
+            prefix.insert(at, rng.pick(&["stop", "stop", "ponderhit", "debug on", "setoption name Hash value 64", "setoption name Clear Hash", "register later"]).to_string());
         }
     }
     let mut dummy = vec![];
@@ -421,6 +444,9 @@ pub fn run(ctx: &Ctx) -> i32 {
         res.log_hash = j.log_hash;
         res.faults.add("key_redraw", sc.key_seeds.len() as u64 + 1);
         res.faults.add("restart_ucinewgame", (!sc.prefix.is_empty()) as u64);
+        if sc.prefix.iter().any(|l| l == "stop") {
+            res.probes.add("prefix_contains_stop", 1);
+        }
         if big {
             res.probes.add("large_search_scenarios", 1);
         }
@@ -438,7 +464,7 @@ pub fn run(ctx: &Ctx) -> i32 {
     });
     let ev = Evidence {
         level: "exploration",
-        rule: "One case = one script pair: an adversarial prefix (0-3 games, clock-limited searches interrupted at seeded reads, depth-limited searches, with/without ucinewgame) and a depth-limited suffix (1-2 games, depth 1..4, sometimes a go before any position command, in one case of four the game of the prefix continued after ucinewgame with the same start and move list; one case in forty is a single depth 5-6 search of several hundred thousand nodes). Runs: prefix+ucinewgame+suffix under three key seeds (transcripts of info/bestmove lines minus time/nps must be identical; the whole transcript when the prefix has no clocked go, else the part after ucinewgame), and the suffix alone in a fresh process (must equal the part after ucinewgame). One case in eight is also run twice on the real binary (two real key draws) and compared with the simulation. Evaluations = simulated processes; all cases are non-trivial (each contains at least one search).".into(),
+        rule: "One case = one script pair: an adversarial prefix (0-3 games, clock-limited searches interrupted at seeded reads, depth-limited searches, with/without ucinewgame, standard commands the engine ignores such as stop/ponderhit/setoption at seeded places; one game in four has a history with planted repetitions) and a depth-limited suffix (1-2 games, depth 1..4, sometimes a go before any position command, in one case of four the game of the prefix continued after ucinewgame with the same start and move list; one case in forty is a single depth 5-6 search of several hundred thousand nodes). Runs: prefix+ucinewgame+suffix under three key seeds (transcripts of info/bestmove lines minus time/nps must be identical; the whole transcript when the prefix has no clocked go, else the part after ucinewgame), and the suffix alone in a fresh process (must equal the part after ucinewgame). One case in eight is also run twice on the real binary (two real key draws) and compared with the simulation. Evaluations = simulated processes; all cases are non-trivial (each contains at least one search).".into(),
         extra: {
             let mut m = serde_json::Map::new();
             m.insert("real_binary_available".into(), json!(real_bin.is_some()));
